@@ -497,7 +497,9 @@ func checkCtor(ctx *core.Ctx, c ctorCase) {
 				fmt.Sprintf("read-limit=%d write-limit=%d gave rx=%s tx=%s", rl, wl, encLim(rx), encLim(tx)))
 		}
 		for _, l := range []*rate.Limiter{rx, tx} {
-			if l != nil && int64(l.Burst()) != modelBurst(ctx, int64(l.Limit())) {
+			// a limiter whose rate is not a positive byte count (infinite, negative) has failed the clause above
+			// already; the burst rule is only defined on configured limits
+			if l != nil && int64(l.Limit()) > 0 && int64(l.Burst()) != modelBurst(ctx, int64(l.Limit())) {
 				ctx.SpecFail("the burst allowance is max(limit/64, 4 MiB)", "", c, impl,
 					fmt.Sprintf("limit %d B/s got burst %d, the rule gives %d", int64(l.Limit()), l.Burst(), modelBurst(ctx, int64(l.Limit()))))
 			}
